@@ -10,7 +10,7 @@ let lookup (p : string) : Model.sexp -> Model.sexp =
   | "c03" -> Model.run_c03
   | "c04" -> Model.run_c04
   | "jsr" -> Model.run_jsr
-  | "decl" -> Model.run_decl
+  | "decl" -> Model.run_decl_any
   | "c19" -> Model.run_c19
   | "c05" -> Model.run_c05j
   | "c06" -> Model.run_c06j
